@@ -54,3 +54,52 @@ Definition spec_string_lt (px py : list Z) : bool :=
        | Some (m, n) => m <? n
        | None => false      (* unreachable: neither is a prefix of the other *)
        end.
+
+(* 6.1.6.1.3 Number::exponentiate ( base, exponent ), steps 1-12 (the special
+   cases; step 13 is "an implementation-approximated value").
+   Some r: decided by steps 1-12; None: step 13. *)
+Definition spec_is_odd_integer (x : num) : bool :=
+  match x with
+  | Fin _ m e => is_int m e && Z.odd (trunc_abs m e)
+  | _ => false
+  end.
+Definition spec_gt_zero (x : num) : bool :=
+  match x with Inf s => negb s | Fin s m _ => negb s && negb (m =? 0) | NaN => false end.
+Definition spec_abs_cmp_one (x : num) : option comparison :=   (* abs(R(base)) compared with 1 *)
+  match x with Fin _ m e => num_cmp (Fin false m e) (Fin false 1 0) | _ => None end.
+
+Definition spec_exponentiate_special (base exponent : num) : option num :=
+  match exponent with
+  | NaN => Some NaN                                              (* 1 *)
+  | _ =>
+  if (match exponent with Fin _ m _ => m =? 0 | _ => false end) then Some (Fin false 1 0)   (* 2 *)
+  else match base with
+  | NaN => Some NaN                                              (* 3 *)
+  | Inf false => if spec_gt_zero exponent then Some (Inf false) else Some (Fin false 0 0)   (* 4 *)
+  | Inf true =>                                                  (* 5 *)
+      if spec_gt_zero exponent
+      then (if spec_is_odd_integer exponent then Some (Inf true) else Some (Inf false))
+      else (if spec_is_odd_integer exponent then Some (Fin true 0 0) else Some (Fin false 0 0))
+  | Fin bs bm be =>
+      if bm =? 0 then
+        (if negb bs then                                         (* 6: +0 *)
+           (if spec_gt_zero exponent then Some (Fin false 0 0) else Some (Inf false))
+         else                                                    (* 7: -0 *)
+           (if spec_gt_zero exponent
+            then (if spec_is_odd_integer exponent then Some (Fin true 0 0) else Some (Fin false 0 0))
+            else (if spec_is_odd_integer exponent then Some (Inf true) else Some (Inf false))))
+      else match exponent with
+      | Inf false =>                                             (* 9 *)
+          match spec_abs_cmp_one base with
+          | Some Gt => Some (Inf false) | Some Eq => Some NaN | _ => Some (Fin false 0 0)
+          end
+      | Inf true =>                                              (* 10 *)
+          match spec_abs_cmp_one base with
+          | Some Gt => Some (Fin false 0 0) | Some Eq => Some NaN | _ => Some (Inf false)
+          end
+      | Fin _ em ee =>                                           (* 12 *)
+          if bs && negb (is_int em ee) then Some NaN else None
+      | NaN => Some NaN
+      end
+  end
+  end.
